@@ -611,13 +611,21 @@ func Exit(p *ProbeTok) {
 }
 
 // Access precedes reads/writes of designated fields.
-func Access(obj any, field string, write bool, site string) {
+func Access(objf func() any, field string, write bool, site string) {
 	r := cur()
 	if r == nil || !r.cfg.Races {
 		return
 	}
 	t := r.me()
 	if r.stop.Load() || r.holder.Load() != t {
+		return
+	}
+	var obj any
+	func() {
+		defer func() { recover() }()
+		obj = objf()
+	}()
+	if obj == nil {
 		return
 	}
 	v := reflect.ValueOf(obj)
